@@ -12,7 +12,7 @@ from vt.mon import contracts
 PROP = 'C18'
 TITLE = 'NFA union / concatenation / star'
 SHARDS = {'quick': 8, 'thorough': 32}
-TIMEOUT = {'quick': 600, 'thorough': 3000}
+TIMEOUT = {'quick': 420, 'thorough': 3000}
 REQUIRED = ['nfa_union', 'nfa_concatenation', 'nfa_repetition']
 EXHAUSTIVE_NOTE = 'all ordered pairs of NFAs with one state over {a} (+eps) and all single NFAs with <=2 states over <=1 symbol (+eps); larger operands are sampled'
 RULE = ('cases are operand pairs with disjoint state sets and a common epsilon symbol from {"", "_", "ε", "e"}: enumerated tiny NFAs, seeded random NFAs (<=5 states, <=2 symbols), '
